@@ -245,6 +245,31 @@ class PathLimit(Exception):
 	pass
 
 
+_KW_AWARE = {}
+
+
+def _uses_kwargs(h):
+	"""does this library model look at the keyword arguments it is given?  A model that never reads them must not be applied to a
+	call that passes some (a keyword such as errors=, reverse=, dtype=, kind= changes what the library does)."""
+	import dis
+	key = getattr(h, '__code__', None)
+	if key is None:
+		return True
+	if key not in _KW_AWARE:
+		def reads(code):
+			for ins in dis.get_instructions(code):
+				if ins.argval == 'kwargs' and ins.opname in ('LOAD_FAST', 'LOAD_DEREF', 'LOAD_CLOSURE', 'LOAD_FAST_CHECK', 'LOAD_FAST_AND_CLEAR'):
+					return True
+			return any(reads(c) for c in code.co_consts if hasattr(c, 'co_code'))
+		_KW_AWARE[key] = reads(key)
+	return _KW_AWARE[key]
+
+
+def _guard_kwargs(h, kwargs, what):
+	if kwargs and not _uses_kwargs(h):
+		raise Unsupported(f'{what} called with keyword arguments {sorted(kwargs)} that its library model does not interpret')
+
+
 class Engine:
 	MAX_PATHS = 4000
 	MAX_SECONDS = int(os.environ.get('PYVC_FUNC_SECONDS', '420'))     # wall-clock budget for generating the obligations of ONE target
@@ -1995,6 +2020,7 @@ class Engine:
 			if h is None:
 				raise Unsupported(f'call of {f.qualname} (no library contract) at line {node.lineno}')
 			self.assumptions_used.add(f.qualname)
+			_guard_kwargs(h, kwargs, f.qualname)
 			yield from h(self, st, args, kwargs, node)
 		elif isinstance(f, ExcClass):
 			yield st, ExcInstance(f.name, tuple(args))
@@ -2413,6 +2439,7 @@ class Engine:
 				if h is None:
 					raise Unsupported(f'method {name} of {obj.T.name}')
 				self.assumptions_used.add('method:' + name)
+				_guard_kwargs(h, kwargs, 'method ' + name)
 				yield from h(self, st, obj, args, kwargs, node, site)
 				return
 			yield from self.call_repo(st, f'{q}.{name}', args, kwargs, node, site, self_val=obj)
@@ -2432,6 +2459,7 @@ class Engine:
 		if h is None:
 			raise Unsupported(f'method {name} on {obj!r} (line {node.lineno})')
 		self.assumptions_used.add('method:' + name)
+		_guard_kwargs(h, kwargs, 'method ' + name)
 		yield from h(self, st, obj, args, kwargs, node, site)
 
 	# ---- comprehensions, yield ---------------------------------------------------------------
